@@ -286,6 +286,7 @@ func (e *Engine) globalAxiomsFor(u *Unit, prefix int) string {
 func (e *Engine) FullPrelude() string {
 	var sb strings.Builder
 	sb.WriteString(e.Prelude())
+	sb.WriteString(e.cvAxioms())
 	sb.WriteString(e.specDecls())
 	sb.WriteString(e.extraDecls())
 	sb.WriteString(e.stringDecls())
